@@ -102,7 +102,7 @@ void TcpConnection::send(const StringPiece& message)
       void (TcpConnection::*fp)(const StringPiece& message) = &TcpConnection::sendInLoop;
       loop_->runInLoop(
           std::bind(fp,
-                    this,     // FIXME
+                    shared_from_this(),  // the caller may drop its reference first
                     message.as_string()));
                     //std::forward<string>(message)));
     }
@@ -124,7 +124,7 @@ void TcpConnection::send(Buffer* buf)
       void (TcpConnection::*fp)(const StringPiece& message) = &TcpConnection::sendInLoop;
       loop_->runInLoop(
           std::bind(fp,
-                    this,     // FIXME
+                    shared_from_this(),  // the caller may drop its reference first
                     buf->retrieveAllAsString()));
                     //std::forward<string>(message)));
     }
@@ -293,7 +293,7 @@ void TcpConnection::setTcpNoDelay(bool on)
 
 void TcpConnection::startRead()
 {
-  loop_->runInLoop(std::bind(&TcpConnection::startReadInLoop, this));
+  loop_->runInLoop(std::bind(&TcpConnection::startReadInLoop, shared_from_this()));
 }
 
 void TcpConnection::startReadInLoop()
@@ -310,7 +310,7 @@ void TcpConnection::startReadInLoop()
 
 void TcpConnection::stopRead()
 {
-  loop_->runInLoop(std::bind(&TcpConnection::stopReadInLoop, this));
+  loop_->runInLoop(std::bind(&TcpConnection::stopReadInLoop, shared_from_this()));
 }
 
 void TcpConnection::stopReadInLoop()
